@@ -329,6 +329,61 @@ theorem sim_preserved_on_fragment (fnOk : Bool) (self : String) (e : Expr) (he :
   exact ⟨simX_of_relF hrel, s', m', simX_of_relF rel, hm, ⟨v, hdata, hv⟩, hpc', hlin, hcur, hrun,
     lookup_agrees_under_relF rel⟩
 
+/-! Non-vacuity: the hypotheses of `sim_preserved_on_fragment` are jointly satisfiable — the initial
+interpreter with the code of the text `1` loaded into `__main` (for real program texts they are discharged
+by `Sim.runText_Ft` / `Sim.runText_Fy`, which is how `lexical_scoping_on_fragment` is proved). -/
+def loaded1 : St :=
+  { VM.initSt with fns := [{ name := "__main", closing := [some 0], code := [.push (intOfLit 1)] },
+                           { name := "builtin", user := true }] }
+def gs1 : GS := { fns := loaded1.fns, live := [some 0] }
+
+theorem relF_loaded1 : RelF id loaded1 Ref.initSt 0 :=
+  (relF_initSt id).load (s' := loaded1) rfl rfl rfl rfl rfl
+    ⟨Nat.le_refl _, fun i hi hne => by
+      match i, hi, hne with
+      | 1, _, _ => rfl, rfl, rfl, LoopsExt.refl _⟩
+
+example : ∃ s' m', SimX id (trf m') s' Ref.initSt 0 ∧ s'.data = [some (intOfLit 1)] ∧ s'.pc = 1
+    ∧ ∀ x, (lexLookup s' x).map (fun p => (p.1, trf m' p.2)) = Ref.lookup Ref.initSt 0 x := by
+  have hgen : GenOk gs1 gs1 loaded1 :=
+    ⟨rfl, by decide, Nat.le_refl _, fun t h1 h2 => absurd h2 (Nat.not_lt.mpr h1), Nat.zero_le _,
+      fun id h => absurd h (Nat.not_lt_zero _)⟩
+  obtain ⟨-, s', m', hsim, -, ⟨v, hd, hv⟩, hpc, -, -, -, hlk⟩ :=
+    sim_preserved_on_fragment true "" (.int 1) (by simp [Ff]) (fun _ => false) {} (Or.inl rfl) gs1 gs1
+      [.push (intOfLit 1)] false rfl id loaded1 Ref.initSt 0 [] [] relF_loaded1 (fun _ => hgen) rfl rfl rfl
+      1 (intOfLit 1) Ref.initSt (by simp [Ref.eval])
+  refine ⟨s', m', hsim, ?_, by rw [hpc]; rfl, hlk⟩
+  have : v = intOfLit 1 := by
+    cases v <;> simp [intOfLit, tr] at hv ⊢
+    exact hv.symm
+  rw [hd, this]; rfl
+
+/-- **… and across a self tail call.** A call in tail position of a function body of the fragment,
+whatever the generator made of it (the ordinary `callExpr`, or guard / operands inline / `prepareCall` /
+`removeScope` × (scopes+1) / `goto 0`): when the reference evaluator yields a value, the machine either
+lands behind the call related at the same environment (ordinary call: guard failed or never emitted), or
+— the jump was taken, the function scope was dropped and `AddFuncScope` ran again for a FRESH scope — the
+whole activation has returned to its caller (`pc = s₁.pc + 1`) and the states are related at the CALLER's
+environment `env` again. From `C02.tail_call_simulates`. -/
+theorem sim_preserved_across_tail_call {k : Nat} {self h : String} {args : List Expr} (hh : (h != "") = true)
+    (hhead : okHead h = true) (hfa : FaList args = true) (hself : (h != self) = true ∨ FfList false self args = true)
+    (isFn : Nat → Bool) (c : Ctx) (gs : GS) (r : (List Instr × Bool) × GS)
+    (hc : (compile isFn c (.call (.sym h) args)).run gs = .ok r) (hfn : FnameOk self c)
+    {ps : List String} {rest : Option String} (hkn : KnownOk c gs ps rest) (hps : ∀ p ∈ ps ++ rest.toList, okParam p = true)
+    {m₁ : Nat → Nat} {s₁ : St} {rs₁ : Ref.St} {env vid : Nat} {D : List (Option Val)} {m : Nat → Nat} {s : St} {rs : Ref.St}
+    {cenv f₀ : Nat} {pre post : List Instr}
+    (hact : InAct m₁ s₁ rs₁ env vid D f₀ c.scopes m s rs) (hnargs : (fnOf s₁ vid).nargs = ps.length)
+    (hva : (fnOf s₁ vid).varargs = rest.isSome) (hpa : (fnOf s₁ vid).params = ps ++ rest.toList)
+    (hrel : RelF m s rs cenv) (hseg : Seg s pre r.1.1 post)
+    (v' : Val) (rs' : Ref.St) (hev : Ref.eval (k + 2) (.call (.sym h) args) cenv rs = .ok v' rs') :
+    (∃ s' m', ReachX s s' ∧ SimX id (trf m') s' rs' cenv)
+    ∨ (∃ s' m', ReachX s s' ∧ s'.pc = s₁.pc + 1 ∧ SimX id (trf m') (s'.withCur f₀) rs' env) := by
+  have ht := tail_call_simulates (k := k) hh hhead hfa hself isFn c gs r hc hfn hkn hps hact hnargs hva hpa hrel hseg
+  rw [hev] at ht
+  rcases ht with ⟨s', m', v, hr, -, -, rel, -⟩ | ⟨s', m', v, hr, hpc, -, -, rel, -⟩
+  · exact Or.inl ⟨s', m', hr, simX_of_relF rel⟩
+  · exact Or.inr ⟨s', m', hr, hpc, simX_of_relF rel⟩
+
 /-- What stays OUTSIDE: `SimPreservedFull` itself (every instruction, every related state — also states no
 program reaches), and every program outside the proved fragments (`C02.CompileCorrectOutsideProved`:
 `fn`/`defn` inside the operands of a call — templates made at run time close over the dynamic stack, so
